@@ -115,9 +115,11 @@ package dns
 //@   fresh
 //@ extern (net.IP).To4
 //@   ensures ret0 == nil || len(ret0) == 4
+//@   ensures ret0 == nil || ref(ret0) == ref(ip)
 //@   pure
 //@ extern (net.IP).To16
 //@   ensures ret0 == nil || len(ret0) == 16
+//@   ensures ret0 == nil || ref(ret0) == ref(ip) || fresh(ret0)
 //@   pure
 //@ extern net.IPv4
 //@   ensures len(ret0) == 16
